@@ -59,20 +59,45 @@ def lit(s: str) -> str:
 
 
 # ------------------------------------------------------------------ rust_context.py
-SIB_WALK = (r"prev_sibling = (\w+)\.prev_sibling\n"
-            r"while prev_sibling is not None and prev_sibling\.type == " + S + r":\n"
-            r"    if " + S + r" in _get_node_text\(prev_sibling\):\n"
-            r"        return True\n"
-            r"    prev_sibling = prev_sibling\.prev_sibling\n"
-            r"return False")
+# shape before def5e3f: the scan stops at the first sibling that is not of the one type it looks at
+SIB_WALK_SINGLE = (r"prev_sibling = (\w+)\.prev_sibling\n"
+                   r"while prev_sibling is not None and prev_sibling\.type == " + S + r":\n"
+                   r"    if " + S + r" in _get_node_text\(prev_sibling\):\n"
+                   r"        return True\n"
+                   r"    prev_sibling = prev_sibling\.prev_sibling\n"
+                   r"return False")
+# current shape: the scan passes over every sibling type of a table and tests siblings of one type
+SIB_WALK_TABLE = (r"prev_sibling = (\w+)\.prev_sibling\n"
+                  r"while prev_sibling is not None and prev_sibling\.type in (\w+):\n"
+                  r"    if prev_sibling\.type == " + S + r" and " + S + r" in _get_node_text\(prev_sibling\):\n"
+                  r"        return True\n"
+                  r"    prev_sibling = prev_sibling\.prev_sibling\n"
+                  r"return False")
+
+
+def _sib_walk(func):
+    """(types the scan passes over, type it tests, needle) of has_test_attribute / has_cfg_test_attribute"""
+    text = body_text(CTX, func)
+    m = re.fullmatch(SIB_WALK_TABLE, text)
+    if m:
+        run = str_elems(find_assign(parse(CTX), m.group(2)))
+        if lit(m.group(3)) not in run:
+            raise Unsupported(f"{func}: tested sibling type is not in the run table")
+        return run, lit(m.group(3)), lit(m.group(4))
+    m = re.fullmatch(SIB_WALK_SINGLE, text)
+    if m:
+        return [lit(m.group(2))], lit(m.group(2)), lit(m.group(3))
+    raise Unsupported(f"{CTX}::{func} no longer has an expected shape: {text[:200]!r}")
 
 
 def ctx_attr_walks():
     tmpl(CTX, "_get_node_text", r"return node\.text\.decode\(\) if node\.text else ''")
-    a = tmpl(CTX, "has_test_attribute", SIB_WALK)
-    b = tmpl(CTX, "has_cfg_test_attribute", SIB_WALK)
-    return (defn("test_attr_sibling_type", "string", coq_string(lit(a.group(2)))) + defn("test_attr_needle", "string", coq_string(lit(a.group(3))))
-            + defn("cfg_attr_sibling_type", "string", coq_string(lit(b.group(2)))) + defn("cfg_attr_needle", "string", coq_string(lit(b.group(3)))))
+    ra, ta, na = _sib_walk("has_test_attribute")
+    rb, tb, nb = _sib_walk("has_cfg_test_attribute")
+    return (defn("test_attr_run_types", "list string", coq_str_list(ra)) + defn("test_attr_sibling_type", "string", coq_string(ta))
+            + defn("test_attr_needle", "string", coq_string(na))
+            + defn("cfg_attr_run_types", "list string", coq_str_list(rb)) + defn("cfg_attr_sibling_type", "string", coq_string(tb))
+            + defn("cfg_attr_needle", "string", coq_string(nb)))
 
 
 def ctx_dispatch():
@@ -363,15 +388,23 @@ def _conj_tests(expr: str):
     return tests
 
 
-def _path_pat(func: str) -> str:
+def _pat(minlen: str, conj: str) -> str:
+    return f"{{| pp_min := {minlen}; pp_tests := {coq_list(_conj_tests(conj))} |}}"
+
+
+def _path_pats(func: str) -> list[str]:
+    """the alternatives a `_matches_*` helper accepts, each `len(parts) >= n and parts[i] == .. / in ..`"""
     text = body_text(BL + "rust_analyzer.py", func)
     m = re.fullmatch(r"if len\(parts\) < (\d+):\n    return False\nreturn ([^\n]+)", text)
     if m:
-        return f"{{| pp_min := {m.group(1)}; pp_tests := {coq_list(_conj_tests(m.group(2)))} |}}"
+        return [_pat(m.group(1), m.group(2))]
     m = re.fullmatch(r"if len\(parts\) >= (\d+) and ([^\n]+):\n    return True\nreturn False", text)
     if m:
-        return f"{{| pp_min := {m.group(1)}; pp_tests := {coq_list(_conj_tests(m.group(2)))} |}}"
-    raise Unsupported(f"{func} no longer has the expected shape: {text[:160]!r}")
+        return [_pat(m.group(1), m.group(2))]
+    m = re.fullmatch(r"if len\(parts\) >= (\d+) and ([^\n]+):\n    return True\nreturn len\(parts\) >= (\d+) and ([^\n]+)", text)
+    if m:
+        return [_pat(m.group(1), m.group(2)), _pat(m.group(3), m.group(4))]
+    raise Unsupported(f"{func} no longer has an expected shape: {text[:160]!r}")
 
 
 def blocking_classes():
@@ -385,7 +418,7 @@ def blocking_classes():
         p = tmpl(r, pred, r"parts = path\.split\(" + S + r"\)\nreturn ((?:\w+\(parts\))(?: or \w+\(parts\))*)")
         if lit(p.group(1)) != "::":
             raise Unsupported(f"{pred}: separator {p.group(1)!r}")
-        pats = [_path_pat(fn) for fn in re.findall(r"(\w+)\(parts\)", p.group(2))]
+        pats = [x for fn in re.findall(r"(\w+)\(parts\)", p.group(2)) for x in _path_pats(fn)]
         classes.append(f"({coq_string(lit(pat))}, {coq_list(pats)})")
     return defn("blocking_classes", "list (string * list path_pat)", coq_list(classes))
 
